@@ -731,6 +731,12 @@ func checkC12(c *Ctx) {
 		c12Retry(c, a)
 		c12Transmit(c, a)
 		c12Map(c, a)
+		if a.sendCall != nil && len(a.sendCall.Call.Args) == 3 {
+			sx := c.Sx()
+			got1, got2 := sx.Of(a.sendCall.Call.Args[1]).String(), sx.Of(a.sendCall.Call.Args[2]).String()
+			want1, want2 := sx.Of(a.sar.Params[2]).String(), sx.Of(a.sar.Params[3]).String()
+			r.Check(got1 == want1 && got2 == want2, "C12-K2", a.short+".SendAndRead: send(dest, msg) gets SendAndRead's own dest and message", c.P.ipos(a.sendCall), "symx", "send called with ("+got1+", "+got2+"), want ("+want1+", "+want2+"): every try must go to the destination the caller gave (a rebuilt address can lose its zone) with the caller's message")
+		}
 		loggerPurity(c, short, "C12-K3")
 		ctorDefaultsFirst(c, a)
 	}
